@@ -290,11 +290,29 @@ func (s *IndexedState) add(ctx *Context, id string, x Map) (string, error) {
 	if err != nil {
 		return id, err
 	}
+	// Whatever we are about to store under this id, the rule (if
+	// any) that is currently stored there has to leave the rule
+	// index.  Otherwise its 'when' pattern keeps finding this id
+	// after the rule has been replaced.
+	var previousRule Map
+	if previous, have := s.IdToFact[id]; have {
+		if previousRule, _ = ExtractRule(ctx, previous, false); previousRule != nil {
+			if err = s.unindexRule(ctx, id, previousRule); err != nil {
+				return "", err
+			}
+		}
+	}
 	if rule != nil {
 		// ToDo: Metric(ctx, "RuleUpdated", "location", s.Name, "ruleId", id)
 		Log(DEBUG, ctx, "IndexedState.add", "state", s.Name, "rule", rule, "ruleId", id)
 		if _, scheduled := rule["schedule"]; !scheduled {
 			if err = s.indexRule(ctx, id, rule); err != nil {
+				if previousRule != nil {
+					// The previous rule stays, so it stays indexed.
+					if _, scheduled := previousRule["schedule"]; !scheduled {
+						s.indexRule(ctx, id, previousRule)
+					}
+				}
 				return "", err
 			}
 		}
